@@ -37,7 +37,8 @@ Sels1 == <<SName(cA), SName(cB), SIndex(0), SIndex(1), SIndex(-1), SIndex(-3), S
 SelLists == [i \in 1..Len(Sels1) |-> <<Sels1[i]>>]
             \o << <<SName(cA), SName(cB)>>, <<SIndex(0), SIndex(0)>>, <<SWild, SIndex(0)>>,
                   <<SSlice(0, 1, ABSENT), SIndex(-1)>>, <<SName(cB), SWild>>,
-                  <<SFilter(Filters[1]), SIndex(1)>> >>
+                  <<SFilter(Filters[1]), SIndex(1)>>, <<SName(cB), SName(cA)>>, <<SIndex(1), SIndex(0)>>, <<SIndex(0), SIndex(1)>>,
+                  <<SName(cA), SName(cB), SName(cC), SName(cA), SName(cB), SName(cK)>> >>
 Segs == [i \in 1..Len(SelLists) |-> Child(SelLists[i])] \o [i \in 1..Len(SelLists) |-> Desc(SelLists[i])]
 
 
@@ -93,7 +94,7 @@ C03Docs == FlattenSeq([i \in 1..Len(C03Names) |->
            \o <<JArr(<<JArr(<<JInt(1), JInt(2), JInt(3)>>), JArr(<<>>), JInt(5)>>), JInt(1), JObj(<<>>, <<>>),
                 JObj(<<<<233>>>>, <<JObj(<<cA, cB>>, <<JArr(<<JInt(1)>>), JArr(<<JInt(2), JInt(3)>>)>>)>>),                 \* {"e-acute":{"a":[1],"b":[2,3]}}
                 JObj(<<<<128512, 233>>, <<128512, 233, 97>>>>, <<JObj(<<cA>>, <<JArr(<<JInt(1)>>)>>), JArr(<<JArr(<<JInt(2)>>), JObj(<<<<233>>>>, <<JInt(3)>>)>>)>>),
-                JArr(<<JInt(0), JInt(1), JInt(2), JInt(3), JInt(4)>>)>>
+                JArr(<<JInt(0), JInt(1), JInt(2), JInt(3), JInt(4)>>), JArr([i \in 1..103 |-> JInt(i - 1)])>>
 C03NameRoutes == [i \in 1..Len(C03Names) |-> <<N1(C03Names[i])>>]
                  \o [i \in 1..Len(C03Names) |-> <<Desc(<<SName(C03Names[i])>>)>>]
 C03Routes == << <<Child(<<SWild>>)>>, <<Desc(<<SWild>>)>>, <<Child(<<SWild>>), Child(<<SWild>>)>>,
@@ -102,13 +103,17 @@ C03Routes == << <<Child(<<SWild>>)>>, <<Desc(<<SWild>>)>>, <<Child(<<SWild>>), C
                 <<Desc(<<SIndex(-1)>>)>>, <<Desc(<<SIndex(0)>>)>>, <<Desc(<<SSlice(ABSENT, ABSENT, -1)>>)>>,
                 <<Desc(<<SSlice(1, ABSENT, ABSENT)>>)>>, <<Child(<<SWild>>), Child(<<SIndex(-2), SIndex(0)>>)>>,
                 <<Desc(<<SWild, SIndex(-1)>>)>>, <<Child(<<SSlice(7, ABSENT, -2)>>)>>, <<Child(<<SSlice(-1, -9, -1)>>)>>, <<Child(<<SSlice(-9, 9, 2)>>)>>,
+                <<Desc(<<SIndex(100)>>)>>, <<Desc(<<SSlice(98, 102, ABSENT)>>)>>, <<Desc(<<SIndex(-3), SIndex(99)>>)>>, <<Desc(<<SSlice(ABSENT, 97, -1)>>)>>,
                 <<Desc(<<SSlice(5, ABSENT, -1)>>)>>, <<Desc(<<SSlice(ABSENT, BIG, ABSENT)>>)>>, <<Child(<<SIndex(-5), SIndex(4)>>)>> >>
 C03Queries == C03Routes \o C03NameRoutes
 \* name routes only make sense on the documents that contain that name: pick them, plus all generic routes
-C03Pick(d, q) == \/ q <= Len(C03Routes)
+C03BigDoc == Len(C03Docs)                 \* the 103-element array: only the routes that reach indexes around 100
+C03BigRoutes == {q \in 1..Len(C03Routes) : C03Routes[q] \in {<<Desc(<<SIndex(100)>>)>>, <<Desc(<<SSlice(98, 102, ABSENT)>>)>>, <<Desc(<<SIndex(-3), SIndex(99)>>)>>,
+                                                                <<Desc(<<SSlice(ABSENT, 97, -1)>>)>>, <<Child(<<SWild>>)>>}}
+C03Pick(d, q) == \/ q <= Len(C03Routes) /\ (d = C03BigDoc => q \in C03BigRoutes)
                  \/ LET ni == ((q - Len(C03Routes) - 1) % Len(C03Names)) + 1
                     IN d <= 3 * Len(C03Names) /\ ((d - 1) \div 3) + 1 = ni
-                 \/ d > 3 * Len(C03Names) /\ q > Len(C03Routes) /\ C03Names[((q - Len(C03Routes) - 1) % Len(C03Names)) + 1] \in {<<233>>, <<97>>}
+                 \/ d > 3 * Len(C03Names) /\ d # C03BigDoc /\ q > Len(C03Routes) /\ C03Names[((q - Len(C03Routes) - 1) % Len(C03Names)) + 1] \in {<<233>>, <<97>>}
 
 (* ---------- C04: comparisons ------------------------------------------------ *)
 C04Prims == <<JNull, JBool(TRUE), JBool(FALSE), JInt(0), F(0, 0), JInt(1), F(1, 0), JInt(-1), F(15, -1),
@@ -147,6 +152,11 @@ C04Queries == C04PairQ \o C04LitQ
 C04Pick(d, q) == IF q <= Len(C04PairQ) THEN d <= Len(C04ChunkDocs) ELSE d = Len(C04Docs)
 
 (* ---------- C05: filter logic, existence, scoping ---------------------------- *)
+RECURSIVE NestF(_)
+NestF(n) == IF n = 0 THEN LTest(FALSE, RelN(cA)) ELSE LTest(FALSE, ERel(<<Child(<<SFilter(NestF(n - 1))>>)>>))
+RECURSIVE NestArr(_)
+NestArr(n) == IF n = 0 THEN Obj1(cA, JInt(1)) ELSE JArr(<<NestArr(n - 1), JInt(n)>>)
+C05DeepDoc == NestArr(42)
 C05AVals == <<NOTHING, JInt(1), JNull, JBool(FALSE), JStr(<<>>)>>
 C05BVals == <<NOTHING, JArr(<<>>), JObj(<<>>, <<>>), JInt(0)>>
 C05CVals == <<NOTHING, JInt(1), JInt(2)>>
@@ -155,7 +165,8 @@ C05Kids == FlattenSeq([a \in 1..Len(C05AVals) |-> FlattenSeq([b \in 1..Len(C05BV
 C05Extra == <<JInt(1), JNull, JArr(<<>>), JArr(<<Obj1(cB, JInt(1))>>), JArr(<<Obj1(cA, JInt(1)), JInt(2)>>), Obj1(cX, Obj1(cB, JNull))>>
 C05Docs == <<JObj(<<cK, cL>>, <<JInt(1), JArr(C05Kids \o C05Extra)>>),
              JObj(<<cK, cL>>, <<JInt(2), JObj([i \in 1..12 |-> <<107, 48 + (i \div 10), 48 + (i % 10)>>], [i \in 1..12 |-> (C05Kids \o C05Extra)[i * 5]])>>),
-             JArr(<<JArr(<<Obj1(cB, JInt(1))>>), JArr(<<JInt(1)>>), JArr(<<>>), Obj1(cA, Obj1(cB, JInt(1))), Obj1(cB, JInt(1)), JInt(3)>>)>>
+             JArr(<<JArr(<<Obj1(cB, JInt(1))>>), JArr(<<JInt(1)>>), JArr(<<>>), Obj1(cA, Obj1(cB, JInt(1))), Obj1(cB, JInt(1)), JInt(3)>>),
+             C05DeepDoc>>
 TA == LTest(FALSE, RelN(cA))   TB == LTest(FALSE, RelN(cB))   TC == LCmp("==", RelN(cC), ELit(JInt(1)))
 NA == LTest(TRUE, RelN(cA))    NB == LTest(TRUE, RelN(cB))
 TK == LCmp("==", EAbs(<<N1(cK)>>), RelN(cA))                       \* $.k == @.a   ($ is the document root)
@@ -185,7 +196,8 @@ C05NegOr == Cross2(C05A, C05A, LAMBDA x, y : LParen(TRUE, LOr(<<x, y>>)))       
 C05DblNeg == [i \in 1..Len(C05A) |-> LParen(TRUE, LParen(TRUE, C05A[i]))]                                                   \* !(!(a))
 C05Deep == Cross2(C05Core, C05Core, LAMBDA x, y : LParen(TRUE, LOr(<<LParen(TRUE, LAnd(<<x, y>>)), LParen(FALSE, LParen(TRUE, y))>>)))
 C05Lx == C05A \o C05GroupOps \o C05And2 \o C05Or2 \o C05And3 \o C05OrAnd \o C05AndOr \o C05ParOr \o C05NegPar \o C05NegOr \o C05DblNeg \o C05Deep
-C05Queries == [i \in 1..Len(C05Lx) |-> <<N1(cL), Child(<<SFilter(C05Lx[i])>>)>>]        \* $.l[?lx]
+C05DeepQ == << <<Child(<<SFilter(NestF(34))>>)>>, <<Child(<<SFilter(NestF(40))>>)>>, <<Child(<<SFilter(NestF(41))>>)>>, <<Desc(<<SFilter(NestF(33))>>)>> >>
+C05Queries == C05DeepQ \o [i \in 1..Len(C05Lx) |-> <<N1(cL), Child(<<SFilter(C05Lx[i])>>)>>]        \* $.l[?lx]
               \o [i \in 1..Len(C05A) |-> <<Desc(<<SFilter(C05A[i])>>)>>]                \* $..[?atom]
               \o [i \in 1..Len(C05A) |-> <<Child(<<SFilter(C05A[i])>>)>>]               \* $[?atom]
 C05Stride == IF Thorough THEN 1 ELSE 2
@@ -221,7 +233,10 @@ XW == ERel(<<N1(cX), Child(<<SWild>>)>>)       \* @.x[*]
 XD == ERel(<<Desc(<<SName(cA)>>)>>)            \* @..a
 C10FnExprs == <<EFn("length", <<RelN(cX)>>), EFn("count", <<XW>>), EFn("count", <<XD>>), EFn("count", <<RelN(cX)>>),
                 EFn("value", <<XW>>), EFn("value", <<XD>>), EFn("length", <<EFn("value", <<XW>>)>>),
-                EFn("length", <<EFn("value", <<RelN(cX)>>)>>), EFn("count", <<ERel(<<Desc(<<SWild>>)>>)>>)>>
+                EFn("length", <<EFn("value", <<RelN(cX)>>)>>), EFn("count", <<ERel(<<Desc(<<SWild>>)>>)>>),
+                EFn("value", <<ERel(<<N1(cX), Child(<<SFilter(LCmp(">", ERel(<<>>), ELit(JInt(1))))>>)>>)>>),     \* value(@.x[?@ > 1])
+                EFn("value", <<ERel(<<N1(cX), Child(<<SSlice(1, ABSENT, ABSENT)>>)>>)>>),                         \* value(@.x[1:])
+                EFn("count", <<ERel(<<N1(cX), Child(<<SFilter(LCmp(">", ERel(<<>>), ELit(JInt(5))))>>)>>)>>)>>
 C10FnQ == FlattenSeq([f \in 1..Len(C10FnExprs) |->
              [k \in 1..5 |-> Flt1(LCmp("==", C10FnExprs[f], ELit(JInt(k - 1))))]
              \o << Flt1(LCmp(">=", C10FnExprs[f], ELit(JInt(0)))), Flt1(LCmp("<", C10FnExprs[f], ELit(JInt(2)))),
@@ -256,23 +271,31 @@ C14Arrs == ArraysOver(C14E, IF Thorough THEN 3 ELSE 2)
 C14X == C14E \o SubSeq(C14Arrs, 1, Min2(Len(C14Arrs), IF Thorough THEN 200 ELSE 31)) \o <<NOTHING, Obj1(cB, JInt(2))>>
 C14Ls == SubSeq(C14Arrs, 1, Min2(Len(C14Arrs), IF Thorough THEN 200 ELSE 31)) \o <<NOTHING, JInt(1), JStr(cA), Obj1(cA, JInt(1)), JNull>>
 C14Children == Cross2(C14X, C14Ls, LAMBDA x, l : ObjOpt(<<cL, cX>>, <<l, x>>))
-C14Docs == LET ch == Chunks(C14Children, 60) IN [i \in 1..Len(ch) |-> JArr(ch[i])]
 C14Fns == <<"in", "nin", "none_of", "any_of", "subset_of">>
+\* integer needles never meet an equal-valued float (and vice versa): the property does not say which equality decides 2 vs 2.0
+C14LitDoc == JArr(<<Obj1(cL, JArr(<<F(2, 0), JStr(cA)>>)), Obj1(cL, JArr(<<F(7, 0), JStr(cB)>>)), Obj1(cL, JArr(<<F(25, -1)>>)), Obj1(cL, JArr(<<>>)), Obj1(cX, JInt(1))>>)
+C14LitQ == FlattenSeq([f \in 1..2 |-> << Flt1(LTest(FALSE, EFn(C14Fns[f], <<ELit(F(2, 0)), RelN(cL)>>))), Flt1(LTest(FALSE, EFn(C14Fns[f], <<ELit(JInt(3)), RelN(cL)>>))),
+                                         Flt1(LTest(FALSE, EFn(C14Fns[f], <<ELit(F(25, -1)), RelN(cL)>>))), Flt1(LTest(FALSE, EFn(C14Fns[f], <<ELit(JStr(cA)), RelN(cL)>>))) >>])
+C14Docs == (LET ch == Chunks(C14Children, 60) IN [i \in 1..Len(ch) |-> JArr(ch[i])]) \o <<C14LitDoc>>
 C14Queries == FlattenSeq([f \in 1..5 |->
                 << Flt1(LTest(FALSE, EFn(C14Fns[f], <<RelN(cX), RelN(cL)>>))),
                    Flt1(LTest(TRUE, EFn(C14Fns[f], <<RelN(cX), RelN(cL)>>))),
                    Flt1(LTest(FALSE, EFn(C14Fns[f], <<RelN(cX), AbsIdxN(0, cL)>>))),
-                   Flt1(LAnd(<<LTest(FALSE, EFn(C14Fns[f], <<RelN(cX), RelN(cL)>>)), LTest(FALSE, RelN(cX))>>)) >>])
+                   Flt1(LAnd(<<LTest(FALSE, EFn(C14Fns[f], <<RelN(cX), RelN(cL)>>)), LTest(FALSE, RelN(cX))>>)) >>]) \o C14LitQ
 C14Stride == IF Thorough THEN 1 ELSE 1
 
 (* ---------- C15: member order that only an insertion-ordered Queryable can have ------------- *)
 U1 == JObj(<<cB, cA>>, <<JInt(1), JInt(2)>>)
 U2 == JObj(<<cX, cB, cA>>, <<JArr(<<JInt(1)>>), JObj(<<cB, cA>>, <<JInt(3), JInt(1)>>), JInt(1)>>)
 U3 == JObj(<<<<122>>, <<97, 32, 98>>, cA>>, <<JInt(1), JInt(2), JInt(3)>>)
-C15Docs == <<U1, U2, U3, JArr(<<U1, U2>>), JObj(<<cK, cA>>, <<U2, JArr(<<U3, JInt(1)>>)>>),
+UEq == JArr(<<JObj(<<cY, cX>>, <<JObj(<<cB, cA>>, <<JInt(2), JInt(1)>>), JObj(<<cA, cB>>, <<JInt(1), JInt(2)>>)>>),
+             JObj(<<cX, cY>>, <<JObj(<<cA>>, <<JArr(<<JObj(<<cB, cA>>, <<JInt(1), JInt(2)>>)>>)>>), JObj(<<cA>>, <<JArr(<<JObj(<<cA, cB>>, <<JInt(2), JInt(1)>>)>>)>>)>>),
+             JObj(<<cY, cX>>, <<JObj(<<cB, cA>>, <<JInt(2), JInt(1)>>), JObj(<<cA, cB>>, <<JInt(1), JInt(3)>>)>>)>>)
+C15Docs == <<U1, U2, U3, UEq, JArr(<<U1, U2>>), JObj(<<cK, cA>>, <<U2, JArr(<<U3, JInt(1)>>)>>),
              JObj(<<cB, cA>>, <<JObj(<<cB, cA>>, <<JObj(<<cB, cA>>, <<JInt(1), JInt(2)>>), JInt(2)>>), JInt(3)>>)>>
 C15Sels == <<SWild, SName(cA), SName(cB), SIndex(0), SFilter(LCmp(">", ERel(<<>>), ELit(JInt(0)))), SFilter(LTest(FALSE, RelN(cA))),
-             SFilter(LCmp("==", RelN(cA), ELit(JInt(1)))), SSlice(ABSENT, ABSENT, -1)>>
+             SFilter(LCmp("==", RelN(cA), ELit(JInt(1)))), SSlice(ABSENT, ABSENT, -1),
+             SFilter(LCmp("==", RelN(cX), RelN(cY))), SFilter(LCmp("!=", RelN(cX), RelN(cY))), SFilter(LCmp("<=", RelN(cY), RelN(cX)))>>
 C15Segs == [i \in 1..Len(C15Sels) |-> Child(<<C15Sels[i]>>)] \o [i \in 1..Len(C15Sels) |-> Desc(<<C15Sels[i]>>)]
 C15Queries == TuplesUpTo(C15Segs, IF Thorough THEN 3 ELSE 2)
 
@@ -296,5 +319,7 @@ Mode    == IF "VERIF_MODE" \in DOMAIN IOEnv THEN IOEnv.VERIF_MODE ELSE CASE Univ
 Pick(d, q) == CASE Univ = "C03" -> C03Pick(d, q)
                 [] Univ = "C04" -> C04Pick(d, q)
                 [] Univ = "C10" -> C10Pick(d, q)
+                [] Univ = "C14" -> IF q > Len(C14Queries) - Len(C14LitQ) THEN d = Len(C14Docs) ELSE d < Len(C14Docs)
+                [] Univ = "C05" -> IF q <= Len(C05DeepQ) THEN d = 4 ELSE d <= 3 /\ Stride(StrideN, d, q)
                 [] OTHER -> Stride(StrideN, d, q)
 =============================================================================
